@@ -256,6 +256,47 @@ fn main() {
             if q.header.code != p.header.code || q.payload != p.payload { found("coap-message-0.2-copy", String::new()); }
         }
     }
+    if which == "all" || which == "C07" {
+        use coap_lite::{CoapResponse, MessageClass, MessageType, ResponseType};
+        for ty in [MessageType::Confirmable, MessageType::NonConfirmable, MessageType::Acknowledgement, MessageType::Reset] { for code in 0..=255u8 { for tkl in [0usize, 1, 8] {
+            let mut p = Packet::new();
+            p.header.set_type(ty); p.header.code = MessageClass::from(code); p.header.message_id = 0xBEEF; p.header.set_version(2);
+            p.set_token((1..=tkl as u8).collect()); p.payload = vec![1, 2, 3]; p.add_option(CoapOption::UriPath, b"x".to_vec());
+            let r = CoapResponse::new(&p);
+            let expect_some = matches!(ty, MessageType::Confirmable | MessageType::NonConfirmable);
+            let ctx = format!("request type {:?} code {:#04x} token length {}", ty, code, tkl);
+            match r {
+                None => if expect_some { found("no-response-prepared", ctx) },
+                Some(resp) => {
+                    if !expect_some { found("response-prepared-for-ack-or-reset", ctx.clone()); }
+                    let m = &resp.message;
+                    let want_ty = if ty == MessageType::Confirmable { MessageType::Acknowledgement } else { MessageType::NonConfirmable };
+                    if m.header.get_type() != want_ty || m.header.get_version() != 1 || m.header.message_id != 0xBEEF || m.get_token() != p.get_token()
+                        || m.header.code != MessageClass::Response(ResponseType::Content) || !m.payload.is_empty() || m.options().count() != 0 {
+                        found("response-not-correlated", ctx);
+                    }
+                }
+            }
+        } } }
+    }
+    if which == "all" || which == "C19" {
+        // observe flag accessor vs the raw option, for raw values of 0..6 bytes
+        use coap_lite::ObserveOption;
+        let bytes = [0u8, 1, 2, 0x80, 0xFF];
+        let mut raws: Vec<Vec<u8>> = vec![vec![]];
+        for len in 1..=5usize { let mut idx = vec![0usize; len]; loop { raws.push(idx.iter().map(|&i| bytes[i]).collect()); let mut k = 0; while k < len { idx[k] += 1; if idx[k] < bytes.len() { break; } idx[k] = 0; k += 1; } if k == len { break; } } }
+        for raw in raws {
+            let mut req: CoapRequest<&'static str> = CoapRequest::new();
+            req.message.add_option(CoapOption::Observe, raw.clone());
+            let val = if raw.len() <= 4 { Some(raw.iter().fold(0u64, |a, b| a * 256 + *b as u64)) } else { None };
+            let want = match val { Some(0) => Some(ObserveOption::Register), Some(1) => Some(ObserveOption::Deregister), _ => None };
+            match req.get_observe_flag() {
+                Some(Ok(f)) => if Some(f) != want { found("observe-flag-named-for-unnamed-value", format!("raw Observe value {:?} reads as {:?}", raw, f)); },
+                Some(Err(_)) => if want.is_some() { found("observe-flag-error-for-named-value", format!("raw {:?}", raw)); },
+                None => found("observe-flag-missing", format!("raw {:?}", raw)),
+            }
+        }
+    }
     if which == "all" || which == "C06" {
         for s in strings(&["a", "\u{e9}", "\u{1F600}", "/"], 4) {
             let raw: Vec<u8> = OptionValueString(s.clone()).into();
